@@ -20,8 +20,8 @@ import BtcVerif.Proofs.Coherence
      * `ser_lemmas_agree`       the SerSpec lemmas are C01's `ser_eq_spec` / `ser_stripped_eq_spec` on WFTx
      * `txid_defs`              Spec.Merkle.txid / wtxid = Spec.Ident.txid / wtxid at SHA-256d
      * `getTxid_merkle_valueSem` Model.Merkle.getTxid = Spec.ValueSem.txidOf (C09), every transaction
-     * `getTxid_ident_merkle`   Model.Ident.getTxid = Model.Merkle.getTxid when the inputs pass the
-                                 constructor — **differ** otherwise
+     * `getTxid_ident_merkle`   Model.Ident.getTxid = Model.Merkle.getTxid, every transaction (both mirror
+                                 the validating constructor of the stripped copy)
      * `getHash_merkle_ident`, `ctorValid_eq_validTx`, `fromTx_eq_ctorValid`
      * `txid_all_on_range`      on TxRange all GetTxid models return Spec.Ident.txid
      * `getHeader_models`, `headerHash_models`, `identOf_block` (**differ** off 32-byte hashes)
@@ -111,13 +111,10 @@ theorem fromTx_eq_ctorValid (t : Tx) :
 theorem getTxid_merkle_valueSem (t : Tx) : Model.Merkle.getTxid t = Spec.ValueSem.txidOf t :=
   CoherenceProofs.merkle_getTxid_eq_valueSem t
 
-/-- C02's `GetTxid` checks only `nLockTime` where the constructor of the stripped copy also checks
-    the inputs copied from mutable ones.  **Differ**: a (mutable) transaction with a non-default
-    witness and an input whose `nSequence` is 2³²: C02 → struct.error from the serialiser,
-    C15/C09 → ValueError (what the code raises). -/
-theorem getTxid_ident_merkle (t : Tx) (h : t.vin.all Spec.ValueSem.validTxIn = true) :
-    Model.Ident.getTxid t = Model.Merkle.getTxid t :=
-  CoherenceProofs.ident_getTxid_eq_merkle t h
+/-- C02's and C15/C16's `GetTxid` are the same function of the transaction: both mirror the
+    ValueError of the validating constructor through which the stripped copy is built -/
+theorem getTxid_ident_merkle (t : Tx) : Model.Ident.getTxid t = Model.Merkle.getTxid t :=
+  CoherenceProofs.ident_getTxid_eq_merkle_all t
 
 theorem getHash_merkle_ident (t : Tx) : Model.Merkle.getHash t = Model.Ident.getHash t :=
   CoherenceProofs.merkle_getHash_eq_ident t
@@ -129,14 +126,8 @@ theorem txid_all_on_range (t : Tx) (h : Spec.Merkle.TxRange t) :
     Spec.ValueSem.txidOf t = .ok (Spec.Ident.txid hash256 t) ∧
     Model.Ident.getHash t = .ok (Spec.Ident.wtxid hash256 t) := by
   have h1 := MerkleProofs.getTxid_ok t h
-  have hv : t.vin.all Spec.ValueSem.validTxIn = true := by
-    have := MerkleProofs.ctorValid_of_range t h
-    rw [ctorValid_eq_validTx] at this
-    unfold Spec.ValueSem.validTx at this
-    simp only [Bool.and_eq_true] at this
-    exact this.2
   refine ⟨h1, ?_, ?_, ?_⟩
-  · rw [getTxid_ident_merkle t hv]; exact h1
+  · rw [getTxid_ident_merkle t]; exact h1
   · rw [← getTxid_merkle_valueSem]; exact h1
   · rw [← getHash_merkle_ident]; exact MerkleProofs.getHash_ok t h
 
@@ -377,14 +368,7 @@ theorem hashLen_implies (h : C16.HashLen) :
 
 /-! ### non-vacuity (the conditional statements have satisfiable hypotheses) -/
 
-example : C16.exTx.vin.all Spec.ValueSem.validTxIn = true := by decide
 example : Spec.Merkle.TxRange C16.exTx := by decide
 example : C16.exBlock.hdr.hashPrevBlock.length = 32 ∧ C16.exBlock.hdr.hashMerkleRoot.length = 32 := by decide
 example : (Spec.Script.isWitnessProgram [0x00, 0x02, 0x61, 0x62]).isSome = true := by decide
-/-- the disagreement recorded at `getTxid_ident_merkle` is real: an input with `nSequence = 2³²`
-    does not pass the constructor -/
-example : Spec.ValueSem.validTxIn
-    { prevout := { hash := List.replicate 32 0, n := 0 }, scriptSig := [], nSequence := 2 ^ 32 } = false := by
-  decide
-
 end BtcVerif.Coherence
